@@ -310,9 +310,10 @@ func (ufs *Ufs) Walk(req *SrvReq) {
 	fid := req.Fid.Aux.(*ufsFid)
 	tc := req.Tc
 
-	err := fid.stat()
-	if err != nil {
-		req.RespondError(err)
+	/* the source fid may be shared by concurrent walks: do not touch fid.st */
+	fst, e := os.Lstat(fid.path)
+	if e != nil {
+		req.RespondError(toError(e))
 		return
 	}
 
@@ -323,7 +324,7 @@ func (ufs *Ufs) Walk(req *SrvReq) {
 	nfid := req.Newfid.Aux.(*ufsFid)
 	wqids := make([]Qid, len(tc.Wname))
 	path := fid.path
-	isdir := fid.st.IsDir()
+	isdir := fst.IsDir()
 	i := 0
 	for ; i < len(tc.Wname); i++ {
 		name := tc.Wname[i]
